@@ -386,5 +386,133 @@ theorem RootOn.row_fits3 {h : Heap α} {a : Arr} {M nO T' b : Nat} {st : List α
   have h4 : (((M * nO) * T' : Nat) : Int) = (M : Int) * ((nO : Int) * ((T' : Int) * 1)) := by push_cast; ring
   omega
 
+/-- one cell step through the template's views is `cellStep` (statement and comments: `OW.Props.C04Nd.wrapperNd_refines`) -/
+theorem cellStepNd_refines [Num α] (km : KModel α) {h : Heap α} {parameters inputs states outputs : Arr}
+    {rows nSets nIn nI T N nS M nO T' nP i pb ib sb ob : Nat} {pst ist sst ost : List α}
+    (rp : RootOn h parameters [(rows : Int), (nSets : Int)])
+    (ri : RootOn h inputs [(nIn : Int), (nI : Int), (T : Int)])
+    (rs : RootOn h states [(N : Int), (nS : Int)])
+    (ro : RootOn h outputs [(M : Int), (nO : Int), (T' : Int)])
+    (hpb : parameters.base = (pb : Int)) (hib : inputs.base = (ib : Int)) (hsb : states.base = (sb : Int))
+    (hob : outputs.base = (ob : Int))
+    (hp : h[parameters.sid]? = some pst) (hi : h[inputs.sid]? = some ist)
+    (hs : h[states.sid]? = some sst) (ho : h[outputs.sid]? = some ost)
+    (hso : states.sid ≠ outputs.sid)
+    (hnP : nP ≤ rows) (hiN : i < N) (hiM : i < M) (hT : T ≤ T')
+    {rd : RunDims} (hrd : runDims inputs states outputs = .ok rd)
+    (hK : ∀ p ins st r, km.run p ins st = .ok r →
+      r.outputs.length ≤ nO ∧ (∀ ser ∈ r.outputs, ser.length ≤ T) ∧ r.states.length ≤ nS) :
+    (∀ e, cellStep km (List.replicate nP none) ((List.range nP).map fun j => (j, 1)) (mat pst pb rows nSets)
+          (cube ist ib nIn nI T) i (rowAt sst (sb + i * nS) nS) (mat ost (ob + i * (nO * T')) nO T') = .error e →
+        cellStepNd km.run nP nI h parameters inputs states outputs rd (i : Int) = .error e) ∧
+    (∀ s' o', cellStep km (List.replicate nP none) ((List.range nP).map fun j => (j, 1)) (mat pst pb rows nSets)
+          (cube ist ib nIn nI T) i (rowAt sst (sb + i * nS) nS) (mat ost (ob + i * (nO * T')) nO T') = .ok (s', o') →
+      ∃ h', cellStepNd km.run nP nI h parameters inputs states outputs rd (i : Int) = .ok h' ∧ SameShape h h' ∧
+        (∀ s, s < nS → cell h' states.sid (sb + i * nS + s) = s'[s]?) ∧
+        (∀ o t, o < nO → t < T' → cell h' outputs.sid (ob + (i * nO + o) * T' + t) = (o'[o]?).bind (·[t]?)) ∧
+        (∀ u q, ¬ (u = states.sid ∧ ∃ s, s < nS ∧ q = sb + i * nS + s) →
+                ¬ (u = outputs.sid ∧ ∃ o t, o < nO ∧ t < T' ∧ q = ob + (i * nO + o) * T' + t) →
+                cell h' u q = cell h u q)) := by
+  -- the numbers of the preamble
+  rw [runDims_eq ri.view rs.view ro.view] at hrd
+  injection hrd with hrd
+  subst hrd
+  obtain ⟨_, _, hT0⟩ := pos3 ri.pos
+  have hT0' : 1 ≤ T := by omega
+  -- read side
+  obtain ⟨hpar, hpick⟩ := params_refine (i := i) rp hpb hp hnP
+  have hcp := Props.C04.cellParams_scalar nP (mat pst pb rows nSets) i hpick
+  obtain ⟨hsv, rsv, hread, hsfit⟩ := state_read_refine rs hsb hs hiN
+  obtain ⟨hins, hblock⟩ := inputs_refine (i := i) ri hib hi
+  -- both sides up to the kernel call
+  have hL : cellStep km (List.replicate nP none) ((List.range nP).map fun j => (j, 1)) (mat pst pb rows nSets)
+      (cube ist ib nIn nI T) i (rowAt sst (sb + i * nS) nS) (mat ost (ob + i * (nO * T')) nO T') =
+      (do let r ← km.run ((List.range nP).filterMap (Props.C04.pick (mat pst pb rows nSets) i))
+              (mat ist (ib + (i % nIn) * (nI * T)) nI T) (rowAt sst (sb + i * nS) nS)
+          pure (overwrite (rowAt sst (sb + i * nS) nS) r.states,
+            ((mat ost (ob + i * (nO * T')) nO T').zip (r.outputs ++ List.replicate
+              ((mat ost (ob + i * (nO * T')) nO T').length - r.outputs.length) [])).map
+              fun (p : List α × List α) => overwrite p.1 p.2)) := by
+    unfold cellStep
+    simp only [hcp, hblock, bind, Except.bind]
+  have hR : cellStepNd km.run nP nI h parameters inputs states outputs
+      { numCells := N, numStates := nS, numInputSequences := nIn, inputLen := T, cellInputsShape := [(nI : Int), (T : Int)],
+        outputStepSlice := [1, 1, 1], outputSizeSlice := [1, 1, (T : Int)], statesSizeSlice := [1, (nS : Int)],
+        inputsSizeSlice := [1, (nI : Int), (T : Int)] } (i : Int) =
+      (do let r ← km.run ((List.range nP).filterMap (Props.C04.pick (mat pst pb rows nSets) i))
+              (mat ist (ib + (i % nIn) * (nI * T)) nI T) (rowAt sst (sb + i * nS) nS)
+          let h3 ← writeOutputs h outputs (i : Int) (T : Int) 0 r.outputs
+          writeView h3 (flat states.sid ((sb + i * nS : Nat) : Int) (nS : Int)) r.states) := by
+    have hins' := hins
+    simp only [bind, Except.bind] at hins'
+    unfold cellStepNd
+    simp only [hpar, hsv, hread, hins', bind, Except.bind]
+  rw [hL, hR]
+  cases hk : km.run ((List.range nP).filterMap (Props.C04.pick (mat pst pb rows nSets) i))
+      (mat ist (ib + (i % nIn) * (nI * T)) nI T) (rowAt sst (sb + i * nS) nS) with
+  | error e0 =>
+    refine ⟨fun e he => ?_, fun s' o' he => ?_⟩
+    · simp only [bind, Except.bind] at he ⊢
+      cases he; rfl
+    · simp [bind, Except.bind] at he
+  | ok r =>
+    obtain ⟨hko, hkl, hks⟩ := hK _ _ _ _ hk
+    refine ⟨fun e he => by simp [bind, Except.bind, pure, Except.pure] at he, fun s' o' he => ?_⟩
+    simp only [bind, Except.bind, pure, Except.pure, Except.ok.injEq, Prod.mk.injEq] at he
+    obtain ⟨hs', ho'⟩ := he
+    -- write side
+    obtain ⟨h3, hw3, hss3, hin3, hout3⟩ := writeOutputs_spec hob hiM hT0' hT r.outputs 0 h ro (by omega) hkl
+    have rsv3 := rsv.sameShape hss3
+    obtain ⟨hw4, hss4⟩ := writeView_flat rsv3 r.states (by omega)
+    simp only [Int.toNat_natCast] at hw4 hss4
+    refine ⟨_, ?_, hss3.trans hss4, fun s s1 => ?_, fun o t o1 t1 => ?_, fun u q hns hno => ?_⟩
+    · simp only [bind, Except.bind]
+      have : ((0 : Nat) : Int) = 0 := rfl
+      rw [← this, hw3]
+      exact hw4
+    · -- state row
+      have hrl : (rowAt sst (sb + i * nS) nS).length = nS := rowAt_length hsfit
+      rw [cell_writeRun, ← hs', overwrite_getElem? _ _ _ (by rw [hrl]; exact s1), rowAt_getElem? _ _ _ _ s1]
+      have h3c : cell h3 states.sid (sb + i * nS + s) = sst[sb + i * nS + s]? := by
+        rw [hout3 _ _ (Or.inl hso)]; simp [cell, hs]
+      have hsome : sb + i * nS + s < sst.length := by omega
+      by_cases hsl : s < r.states.length
+      · rw [if_pos ⟨rfl, by omega, by omega⟩, if_pos hsl, h3c, List.getElem?_eq_getElem hsome]
+        simp
+      · rw [if_neg (by omega), if_neg hsl, h3c]
+    · -- output rows
+      rw [cell_writeRun, if_neg (by intro c; exact hso c.1.symm), hin3 o t o1 t1, ← ho']
+      have hol : (mat ost (ob + i * (nO * T')) nO T').length = nO := mat_length _ _ _ _
+      have hfit := ro.row_fits3 hob ho hiM o1
+      rw [newO_getElem? _ _ o (by rw [hol]; exact o1) (by rw [hol]; exact hko)]
+      have hrow : (mat ost (ob + i * (nO * T')) nO T')[o]'(by rw [hol]; exact o1) =
+          rowAt ost (ob + (i * nO + o) * T') T' := by
+        have := mat_getElem? ost (ob + i * (nO * T')) nO T' o o1
+        rw [List.getElem?_eq_getElem (by rw [hol]; exact o1)] at this
+        injection this with this
+        rw [this]; congr 1; ring
+      simp only [Option.bind_some]
+      rw [hrow, overwrite_getElem? _ _ _ (by rw [rowAt_length hfit]; exact t1), rowAt_getElem? _ _ _ _ t1]
+      have hcell : cell h outputs.sid (ob + (i * nO + o) * T' + t) = ost[ob + (i * nO + o) * T' + t]? := by
+        simp [cell, ho]
+      rw [hcell]
+      unfold outVal
+      simp only [Nat.zero_le, if_true, Nat.sub_zero]
+      cases hro : r.outputs[o]? with
+      | none => simp
+      | some ser =>
+        simp only [Option.getD_some, Option.bind_some]
+        by_cases htl : t < ser.length
+        · rw [if_pos htl, List.getElem?_eq_getElem htl]; simp
+        · rw [if_neg htl, List.getElem?_eq_none (by omega)]; simp
+    · -- frame
+      rw [cell_writeRun, if_neg, hout3]
+      · by_cases hu : u = outputs.sid
+        · right; intro o t o1 t1 hq
+          exact hno ⟨hu, o, t, o1, t1, hq⟩
+        · exact Or.inl hu
+      · rintro ⟨hu, hq1, hq2⟩
+        exact hns ⟨hu, q - (sb + i * nS), by omega, by omega⟩
+
 end
 end OW.WrapperNd
